@@ -201,11 +201,13 @@ LEVEL["C19"] = "fault_enumeration"
 RULES["C19"] = ("every bench execution ends with drop(simulation) followed by the drop of every other handle; drop-counting tokens sit in every model (sub-models included), message, reply and "
                 "in-flight handler future. prefix: healthy DAG/timer benches dropped after 0, a random number and all of their commands (idle, scheduled actions pending) on ST and MT 2-16; "
                 "deadlock: random cyclic benches dropped with blocked senders, pending queries and orphan mailboxes; faults: matrix fatal fault kind (panics, NoRecipient, OutOfSync, deadlock, "
-                "message loss, MT timeout) x trigger x scheduler queue empty/non-empty x 0-2 further calls x {ST, MT2, MT4}, dropped afterwards. Oracle: tokens created == dropped, no model code "
+                "message loss, MT timeout) x trigger x scheduler queue empty/non-empty x 0-2 further calls x {ST, MT2, MT4}, dropped afterwards; nested: a host model builds, steps and discards inner simulations "
+                "(1-4 executor threads) from its handlers on the outer executor's threads (1-8), or keeps one until the outer simulation is dropped, with an orphan mailbox holding undelivered messages. Oracle: tokens created == dropped, no model code "
                 "or event after the drop returned, drop neither panics nor hangs, thread count back to its initial value; Miri/ASan add leak, double-free and use-after-free detection. "
                 "non-trivial = drop with commands executed, pending actions, a suspended handler future or a failed simulation")
-PLAN["C19"] = {"quick": [job("native", "prefix", 16, 600), job("native", "deadlock", 16, 600), job("native", "faults", 16, 600), miri("deadlock", 2, 4, 900)],
+PLAN["C19"] = {"quick": [job("native", "prefix", 16, 600), job("native", "deadlock", 16, 600), job("native", "faults", 16, 600), job("native", "nested", 16, 600), miri("deadlock", 2, 4, 900)],
                "thorough": [job("native", "prefix", 16, 3000), job("native", "deadlock", 16, 3000), job("native", "faults", 16, 3000),
+                            job("native", "nested", 16, 3000), miri("nested", 2, 4, 3000), job("asan", "nested", 8, 1800, args=["--scale", "0.2"]),
                             miri("deadlock", 8, 16, 3000), miri("prefix", 4, 8, 3000), miri("faults", 4, 4, 3000),
                             job("asan", "deadlock", 8, 1800, args=["--scale", "0.2"]), job("asan", "prefix", 8, 1800, args=["--scale", "0.2"]), job("asan", "faults", 8, 1800)],
                "min_evaluations": {"quick": 500, "thorough": 500},
